@@ -52,8 +52,46 @@ class Var(object):
         return self.t[0] == "list"
 
     @property
+    def is_map(self):
+        return self.t[0] == "map"
+
+    @property
+    def is_obj(self):
+        return self.t[0] == "obj"
+
+    @property
     def elem(self):
+        if self.t[0] == "obj":
+            return None
         return self.t[1] if self.t[0] == "list" else self.t[2]
+
+
+class Place(object):
+    """A value written as a *place expression* (index expression, map lookup, object field read, nested-list
+    element).  `get()` reads the model at the moment the expression is evaluated: scalars and strings are copied
+    into the sink, inner lists are shared with it (reference semantics of the statement)."""
+
+    def __init__(self, text, getter, elem, label, origin=None):
+        self.src, self.get, self.elem, self.label, self.origin = text, getter, elem, label, origin
+
+
+def plain(v):
+    return list(v) if isinstance(v, list) else v
+
+
+OBJ_FIELDS = (("n", "int"), ("s", "str"), ("o", "opt"), ("items", "nest"))
+CLASS_SRC = """class Box13 {
+	n: int
+	s: str
+	o: int?
+	items: [int...]
+	constructor(self, pn13: int, ps13: str, po13: int?, pitems13: [int...]) {
+		self.n = pn13
+		self.s = ps13
+		self.o = po13
+		self.items = pitems13
+	}
+}"""
 
 
 # callbacks: name -> (source template with {x} = parameter name, return type text, python function, result elem)
@@ -134,6 +172,10 @@ class Gen(object):
                 self.expect(str(C.length(v.obj)), "state", v.name)
                 self.emit("print %s" % v.name)
                 self.expect(C.render(v.obj), "state", v.name)
+            elif v.is_obj:                      # objects are never printed, only their fields
+                for f, _ in OBJ_FIELDS:
+                    self.emit("print %s.%s" % (v.name, f))
+                    self.expect(C.render(v.obj[f]), "state", v.name)
             else:
                 self.emit("print %s.len()" % v.name)
                 self.expect(str(C.m_len(v.obj)), "state", v.name)
@@ -145,12 +187,12 @@ class Gen(object):
     def audit_maps(self):
         """Final step: read every key of the key universe through every map alias (pins the key->value mapping,
         which keys()/values() as multisets do not)."""
-        maps = [v for v in self.vars if not v.is_list]
+        maps = [v for v in self.vars if v.is_map]
         if not maps or self.failed is not None:
             return
         self.begin("map.audit")
         for v in maps:
-            for k in KEY_POOL[v.t[1]]:
+            for k in KEY_POOL[v.t[1]] + sorted(k for k in v.obj if k not in KEY_POOL[v.t[1]]):
                 self.emit("print %s[%s]" % (v.name, src(k)))
                 self.expect(C.render(C.m_get(v.obj, k)), "state", v.name)
 
@@ -171,6 +213,10 @@ class Gen(object):
 
     def contained(self, obj):
         for v in self.vars:
+            if v.is_obj:
+                if v.obj["items"] is obj:
+                    return True
+                continue
             if v.elem != "nest":
                 continue
             items = v.obj if v.is_list else list(v.obj.values())
@@ -196,12 +242,75 @@ class Gen(object):
         self.begin(op)
         name = self.uid("l")
         t = ("list", elem)
-        self.emit("%s: %s = %s" % (name, tname(t), src(values)))
-        v = self.add(name, t, [list(x) if isinstance(x, list) else x for x in values])
+        self.emit("%s: %s = [%s]" % (name, tname(t), ", ".join(self.sv(x)[0] for x in values)))
+        v = self.add(name, t, [self.sv(x)[1] for x in values])
+        if any(isinstance(x, Place) for x in values):
+            self.notes.add("place")
+        self.observe()
+        return v
+
+    def sv(self, x):
+        """(source text, model value) of a literal value or a Place."""
+        if isinstance(x, Place):
+            return x.src, x.get()
+        return src(x), plain(x)
+
+    # ---- places
+    def p_index(self, var, i, via_var=False):
+        return Place("%s[%s]" % (var.name, self.idx(i, via_var)), lambda: C.get(var.obj, i), var.elem,
+                     "index_var" if via_var else "index_lit")
+
+    def p_lookup(self, var, k):
+        return Place("%s[%s]" % (var.name, src(k)), lambda: C.m_get(var.obj, k), var.elem, "map_lookup", var.obj)
+
+    def p_field(self, var, f):
+        return Place("%s.%s" % (var.name, f), lambda: var.obj[f], dict(OBJ_FIELDS)[f], "field")
+
+    def p_index2(self, var, i, j, via_var=False):
+        return Place("%s[%s][%s]" % (var.name, self.idx(i, via_var), self.idx(j, via_var)),
+                     lambda: C.get(C.get(var.obj, i), j), "int", "nested_element")
+
+    def p_lookup2(self, var, k, j):
+        return Place("%s[%s][%d]" % (var.name, src(k), j), lambda: C.get(C.m_get(var.obj, k), j), "int",
+                     "map_of_lists_element")
+
+    # ---- objects (sources of field places; shared by reference)
+    def new_obj(self, n, s, o, items):
+        self.begin("object.new")
+        self.funcs["A_class"] = CLASS_SRC
+        name = self.uid("ob")
+        text, val = (items.name, items.obj) if isinstance(items, Var) else (src(items), list(items))
+        self.emit("%s = Box13(%s, %s, %s, %s)" % (name, src(n), src(s), src(o), text))
+        v = self.add(name, ("obj",), {"n": n, "s": s, "o": o, "items": val})
+        self.observe()
+        return v
+
+    def o_set(self, var, f, val, mode="lit"):
+        self.begin("object.field_write")
+        self._cur_elem = dict(OBJ_FIELDS)[f]
+        s, obj = self.value_src(val, mode)
+        self.emit("%s.%s = %s" % (var.name, f, s))
+        var.obj[f] = obj
+        self.observe()
+
+    def o_opassign(self, var, f, op, operand):
+        self.begin("object.field_opassign")
+        s, val = self.sv(operand)
+        self.emit("%s.%s %s= %s" % (var.name, f, op, s))
+        var.obj[f] = C.apply_op(op, var.obj[f], val)
+        self.observe()
+
+    def o_fetch(self, var):
+        self.begin("object.fetch_items")
+        name = self.uid("oi")
+        self.emit("%s = %s.items" % (name, var.name))
+        v = self.add(name, ("list", "int"), var.obj["items"])
+        self.notes.add("nested_alias")
         self.observe()
         return v
 
     def new_map(self, kt, vt, items):
+        """items: [(key, value)]; keys and values may be Places."""
         self.begin("map.literal")
         name = self.uid("m")
         t = ("map", kt, vt)
@@ -211,13 +320,18 @@ class Gen(object):
         else:
             parts = []
             for k, val in items:
-                if vt == "opt" and val is not None:
+                ks, kv = self.sv(k)
+                if isinstance(k, Place) or isinstance(val, Place):
+                    self.notes.add("place")
+                if vt == "opt" and val is not None and not isinstance(val, Place):
                     tmp = self.uid("ov")
                     self.emit("%s: int? = %s" % (tmp, src(val)))
-                    parts.append("%s: %s" % (src(k), tmp))
+                    parts.append("%s: %s" % (ks, tmp))
+                    obj[kv] = val
                 else:
-                    parts.append("%s: %s" % (src(k), src(val)))
-                obj[k] = list(val) if isinstance(val, list) else val
+                    vs, vv = self.sv(val)
+                    parts.append("%s: %s" % (ks, vs))
+                    obj[kv] = vv
             self.emit("%s = %s { %s }" % (name, tname(t), ", ".join(parts)))
         v = self.add(name, t, obj)
         self.observe()
@@ -237,6 +351,9 @@ class Gen(object):
         """mode: lit | typedvar (bind to a typed variable first) | Var (an existing container variable)."""
         if isinstance(mode, Var):
             return mode.name, mode.obj
+        if isinstance(mode, Place):
+            self.notes.add("place")
+            return mode.src, mode.get()
         if mode == "typedvar":
             tmp = self.uid("tv")
             self.emit("%s: %s = %s" % (tmp, ENAME[self._cur_elem], src(val)))
@@ -301,8 +418,9 @@ class Gen(object):
 
     def l_opassign(self, var, i, op, operand, via_var=False):
         self.begin("list.opassign")
-        self.emit("%s[%s] %s= %s" % (var.name, self.idx(i, via_var), op, src(operand)))
-        self.model(lambda: C.op_assign(var.obj, i, op, operand))
+        os_, ov = self.sv(operand)
+        self.emit("%s[%s] %s= %s" % (var.name, self.idx(i, via_var), op, os_))
+        self.model(lambda: C.op_assign(var.obj, i, op, ov))
         if self.failed is not None:
             return
         self.observe()
@@ -345,8 +463,8 @@ class Gen(object):
             self.emit("print %s.join(%s)" % (var.name, arg.name))
             argobj = arg.obj
         else:
-            self.emit("print %s.join(%s)" % (var.name, src(arg)))
-            argobj = [list(x) if isinstance(x, list) else x for x in arg]
+            self.emit("print %s.join([%s])" % (var.name, ", ".join(self.sv(x)[0] for x in arg)))
+            argobj = [self.sv(x)[1] for x in arg]
         r = C.join(var.obj, argobj)
         self.expect(C.render(r))
         if isinstance(arg, Var):
@@ -380,6 +498,30 @@ class Gen(object):
         else:
             self.expect(C.render(r))
         self.observe()
+
+    def l_map_place(self, var, kind, target, arg=None):
+        """`r = l.map(fn(x) { return <place read> })`: index (target[x]), inner (target[x], inner lists, shared),
+        lookup (target[arg]), field (target.arg).  The result list must hold values, not pointers."""
+        self.begin("list.map_returning_" + kind)
+        if kind in ("index", "inner"):
+            relem = target.elem
+            tpl, pyf = "return %s[{x}]" % target.name, (lambda x: C.get(target.obj, x))
+        elif kind == "lookup":
+            relem = target.elem
+            tpl, pyf = "return %s[%s]" % (target.name, src(arg)), (lambda x: C.m_get(target.obj, arg))
+        else:
+            relem = dict(OBJ_FIELDS)[arg]
+            tpl, pyf = "return %s.%s" % (target.name, arg), (lambda x: target.obj[arg])
+        cb = self._callback(var.elem, tpl, ENAME[relem])
+        nm = self.uid("mp")
+        self.emit("%s: %s = %s.map(%s)" % (nm, tname(("list", relem)), var.name, cb))
+        r = self.model(lambda: C.map_(var.obj, pyf))
+        if self.failed is not None:
+            return None
+        self.notes.add("place")
+        v = self.add(nm, ("list", relem), r)
+        self.observe()
+        return v
 
     def l_filter(self, var, which, bind=False):
         self.begin("list.filter")
@@ -547,8 +689,9 @@ class Gen(object):
     # ---- map operations
     def m_read(self, var, k):
         self.begin("map.index")
-        self.emit("print %s[%s]" % (var.name, src(k)))
-        self.expect(C.render(C.m_get(var.obj, k)))
+        ks, kv = self.sv(k)
+        self.emit("print %s[%s]" % (var.name, ks))
+        self.expect(C.render(C.m_get(var.obj, kv)))
         self.observe()
 
     def m_fetch(self, var, k):
@@ -564,8 +707,10 @@ class Gen(object):
     def m_opassign(self, var, k, op, operand):
         """`m[k] op= v` on a present key (an absent key reads nil: no defined arithmetic)."""
         self.begin("map.opassign")
-        self.emit("%s[%s] %s= %s" % (var.name, src(k), op, src(operand)))
-        C.m_set(var.obj, k, C.apply_op(op, C.m_get(var.obj, k), operand))
+        ks, kv = self.sv(k)
+        os_, ov = self.sv(operand)
+        self.emit("%s[%s] %s= %s" % (var.name, ks, op, os_))
+        C.m_set(var.obj, kv, C.apply_op(op, C.m_get(var.obj, kv), ov))
         self.observe()
 
     def m_read2(self, var, k, j, via_var=False):
@@ -595,32 +740,36 @@ class Gen(object):
 
     def m_assign(self, var, k, val, mode="lit"):
         self.begin("map.assign")
+        ks, kv = self.sv(k)
         self._cur_elem = var.elem
         s, obj = self.value_src(val, mode)
         if isinstance(mode, Var):
             self.notes.add("nested_store")
-        self.emit("%s[%s] = %s" % (var.name, src(k), s))
-        C.m_set(var.obj, k, obj)
+        self.emit("%s[%s] = %s" % (var.name, ks, s))
+        C.m_set(var.obj, kv, obj)
         self.observe()
 
     def m_replace(self, var, k, val, mode="lit"):
         self.begin("map.replace")
+        ks, kv = self.sv(k)
         self._cur_elem = var.elem
         s, obj = self.value_src(val, mode)
-        self.emit("print %s.replace(%s, %s)" % (var.name, src(k), s))
-        self.expect(C.render(C.m_replace(var.obj, k, obj)))
+        self.emit("print %s.replace(%s, %s)" % (var.name, ks, s))
+        self.expect(C.render(C.m_replace(var.obj, kv, obj)))
         self.observe()
 
     def m_remove(self, var, k):
         self.begin("map.remove")
-        self.emit("print %s.remove(%s)" % (var.name, src(k)))
-        self.expect(C.render(C.m_remove(var.obj, k)))
+        ks, kv = self.sv(k)
+        self.emit("print %s.remove(%s)" % (var.name, ks))
+        self.expect(C.render(C.m_remove(var.obj, kv)))
         self.observe()
 
     def m_contains(self, var, k):
         self.begin("map.contains_key")
-        self.emit("print %s.contains_key(%s)" % (var.name, src(k)))
-        self.expect(C.render(C.m_contains(var.obj, k)))
+        ks, kv = self.sv(k)
+        self.emit("print %s.contains_key(%s)" % (var.name, ks))
+        self.expect(C.render(C.m_contains(var.obj, kv)))
         self.observe()
 
     def m_len(self, var):
@@ -775,14 +924,51 @@ def weighted(rng, table):
     return table[-1][1]
 
 
+def rand_place(g, rng, elem):
+    """A place expression of element type `elem` that is readable right now (in range / present key), or None."""
+    c = []
+    for v in g.vars:
+        if v.is_list and v.elem == elem and v.obj:
+            c.append(lambda v=v: g.p_index(v, rng.randrange(len(v.obj)), rng.random() < 0.5))
+        elif v.is_map and v.elem == elem and v.obj:
+            c.append(lambda v=v: g.p_lookup(v, rng.choice(list(v.obj))))
+        elif v.is_obj:
+            f = {"int": "n", "str": "s", "opt": "o", "nest": "items"}[elem]
+            c.append(lambda v=v, f=f: g.p_field(v, f))
+        if elem == "int" and v.is_list and v.elem == "nest" and any(v.obj):
+            i = rng.choice([k for k, x in enumerate(v.obj) if x])
+            c.append(lambda v=v, i=i: g.p_index2(v, i, rng.randrange(len(v.obj[i])), rng.random() < 0.5))
+        if elem == "int" and v.is_map and v.elem == "nest" and any(v.obj.values()):
+            k = rng.choice([k for k, x in v.obj.items() if x])
+            c.append(lambda v=v, k=k: g.p_lookup2(v, k, rng.randrange(len(v.obj[k]))))
+    return rng.choice(c)() if c else None
+
+
+def maybe_place(g, rng, elem, p=0.3):
+    return rand_place(g, rng, elem) if rng.random() < p else None
+
+
 def create_random(g, rng):
+    if g.vars and rng.random() < 0.12 and not any(v.is_obj for v in g.vars):
+        inner = [x for x in g.vars if x.t == ("list", "int")]
+        g.new_obj(rng.choice(INT_POOL), rng.choice(STR_POOL), rand_value(rng, "opt"),
+                  rng.choice(inner) if inner and rng.random() < 0.5 else rand_value(rng, "nest"))
+        return
     if rng.random() < 0.68:
         elem = rng.choice(["int", "int", "str", "opt", "nest", "nest"])
-        g.new_list(elem, rand_values(rng, elem))
+        g.new_list(elem, [maybe_place(g, rng, elem) or x for x in rand_values(rng, elem)])
     else:
         kt, vt = rng.choice(["str", "int"]), rng.choice(["int", "int", "str", "opt", "nest"])
         keys = rng.sample(KEY_POOL[kt], rng.choice([0, 1, 2, 3]))
-        g.new_map(kt, vt, [(k, rand_value(rng, vt)) for k in keys])
+        items, used = [], set()
+        for k in keys:
+            kp = maybe_place(g, rng, kt, 0.2)
+            kv = kp.get() if kp is not None else k
+            if kv in used or kv is None:
+                continue
+            used.add(kv)
+            items.append((kp if kp is not None else k, maybe_place(g, rng, vt) or rand_value(rng, vt)))
+        g.new_map(kt, vt, items)
 
 
 def small_operand(rng, elem):
@@ -807,6 +993,8 @@ def list_step(g, rng, v, avoid):
         t += [(1.2, "map"), (1.2, "filter")]
     if e == "opt" and not avoid["wrapped_optional_in_list"]:
         t += [(1, "push_wrapped")]
+    if e == "int" and n > 0 and room:
+        t += [(1, "map_place")]
     op = weighted(rng, t)
     if op == "push":
         inner = [x for x in g.vars if x.t == ("list", "int")]
@@ -815,7 +1003,7 @@ def list_step(g, rng, v, avoid):
         elif n > 0 and rng.random() < 0.2:
             g.l_push(v, rng.randrange(n), "elem")
         else:
-            g.l_push(v, rand_value(rng, e), rng.choice(["lit", "lit", "typedvar"]))
+            g.l_push(v, rand_value(rng, e), maybe_place(g, rng, e) or rng.choice(["lit", "lit", "typedvar"]))
     elif op == "remove":
         g.l_remove(v, pick_index(rng, n), via, bind=(e == "nest" and len(g.vars) < 6 and rng.random() < 0.4))
     elif op == "read":
@@ -828,11 +1016,14 @@ def list_step(g, rng, v, avoid):
         elif n > 0 and rng.random() < 0.2:
             g.l_assign(v, i, rng.randrange(n), via, "elem")
         else:
-            g.l_assign(v, i, rand_value(rng, e), via)
+            g.l_assign(v, i, rand_value(rng, e), via, maybe_place(g, rng, e) or "lit")
     elif op == "opassign":
         i = pick_index(rng, n)
         o = "+" if e == "str" else rng.choice(["+", "-", "*"])
-        g.l_opassign(v, i, o, small_operand(rng, e), via)
+        pl = maybe_place(g, rng, e, 0.25)
+        if pl is not None and e == "int" and abs(pl.get()) > 50:
+            pl = None
+        g.l_opassign(v, i, o, pl or small_operand(rng, e), via)
     elif op == "reverse":
         g.l_reverse(v)
     elif op == "clear":
@@ -864,13 +1055,26 @@ def list_step(g, rng, v, avoid):
         if cands and rng.random() < 0.5:
             g.l_join(v, rng.choice(cands))
         else:
-            g.l_join(v, rand_values(rng, e)[:3])
+            g.l_join(v, [maybe_place(g, rng, e) or x for x in rand_values(rng, e)[:3]])
     elif op == "map":
         g.l_map(v, rng.randrange(len(MAP_CB[e])), bind=room and rng.random() < 0.5)
     elif op == "filter":
         g.l_filter(v, rng.randrange(len(FILTER_CB[e])), bind=room and rng.random() < 0.5)
     elif op == "concat":
         g.l_concat(v, pick_index(rng, n, 0.05), pick_index(rng, n, 0.0) if n else 0, bind=rng.random() < 0.5)
+    elif op == "map_place":
+        c = []
+        for x in g.vars:
+            if x.is_list and x.obj and x.obj is not v.obj and all(isinstance(k, int) and 0 <= k < len(x.obj) for k in v.obj):
+                c.append(("inner" if x.elem == "nest" else "index", x, None))
+            elif x.is_map and x.obj:
+                c.append(("lookup", x, rng.choice(list(x.obj))))
+            elif x.is_obj:
+                c.append(("field", x, rng.choice(["n", "s", "o", "items"])))
+        if c:
+            g.l_map_place(v, *rng.choice(c))
+        else:
+            g.l_map(v, rng.randrange(len(MAP_CB[e])), bind=True)
     elif op == "push_wrapped":
         g.l_push_wrapped(v, rng.choice([x for x in v.obj if x is not None] + [rng.choice(INT_POOL)]))
     elif op == "fetch":
@@ -913,6 +1117,21 @@ def list_step(g, rng, v, avoid):
             g.call_mut(v, k)
 
 
+def obj_step(g, rng, v):
+    f, e = rng.choice(OBJ_FIELDS)
+    r = rng.random()
+    if r < 0.25 and len(g.vars) < 6:
+        g.o_fetch(v)
+    elif r < 0.5 and e in ("int", "str"):
+        g.o_opassign(v, f, "+" if e == "str" else rng.choice(["+", "-", "*"]), small_operand(rng, e))
+    else:
+        inner = [x for x in g.vars if x.t == ("list", "int")]
+        if e == "nest" and inner and rng.random() < 0.5:
+            g.o_set(v, f, None, rng.choice(inner))
+        else:
+            g.o_set(v, f, rand_value(rng, e), maybe_place(g, rng, e) or "lit")
+
+
 def map_step(g, rng, v, avoid):
     kt, vt = v.t[1], v.t[2]
     present = list(v.obj.keys())
@@ -930,6 +1149,11 @@ def map_step(g, rng, v, avoid):
         t += [(1.5, "opassign")]
     op = weighted(rng, t)
     inner = [x for x in g.vars if x.t == ("list", "int")]
+    if op in ("read", "assign", "replace", "remove", "contains"):
+        kp = maybe_place(g, rng, kt, 0.15)            # the key written as a place expression
+        if kp is not None and kp.get() is not None and not (
+                avoid.get("map_key_lookup_in_same_map") and op == "assign" and kp.origin is v.obj):
+            key = kp
     if op == "read":
         g.m_read(v, key)
     elif op == "fetch":
@@ -953,9 +1177,9 @@ def map_step(g, rng, v, avoid):
         if vt == "nest" and inner and rng.random() < 0.6:
             g.m_assign(v, key, None, rng.choice(inner))
         else:
-            g.m_assign(v, key, rand_value(rng, vt), rng.choice(["lit", "lit", "typedvar"]))
+            g.m_assign(v, key, rand_value(rng, vt), maybe_place(g, rng, vt) or rng.choice(["lit", "lit", "typedvar"]))
     elif op == "replace":
-        g.m_replace(v, key, rand_value(rng, vt), rng.choice(["lit", "lit", "typedvar"]))
+        g.m_replace(v, key, rand_value(rng, vt), maybe_place(g, rng, vt) or rng.choice(["lit", "lit", "typedvar"]))
     elif op == "remove":
         g.m_remove(v, key)
     elif op == "contains":
@@ -997,7 +1221,9 @@ def random_history(seed, avoid):
                 g.alias(rng.choice(g.vars))
             else:
                 v = rng.choice(g.vars)
-                if v.is_list:
+                if v.is_obj:
+                    obj_step(g, rng, v)
+                elif v.is_list:
                     list_step(g, rng, v, avoid)
                 else:
                     map_step(g, rng, v, avoid)
@@ -1337,6 +1563,154 @@ def catalogue():
     return cases
 
 
+# ----------------------------------------------------------------------------- containers built from places
+
+def places_catalogue():
+    """Every way of putting a value into a list or map x the value written as a place expression (index
+    expression by literal / by variable, map lookup, object field read, nested-list element, element of a list
+    stored in a map; inner lists reached the same three ways) x LATER mutations of that source place (element
+    assignment, op-assign, push, reverse, remove, clear, field write, slot rebinding).  Scalars and strings must have
+    been copied (the sink never changes); inner lists are shared (mutating them shows, rebinding the slot does not).
+    The sink is also watched through an alias and a clone.  Case id: places:<sink>:<source>."""
+    cases = []
+    SV = {"int": [3, -1, 7], "str": ["a", "", "a b"], "opt": [None, 5, None]}
+
+    def add(sink, source, typ, build):
+        g = Gen()
+        build(g)
+        g.audit_maps()
+        c = package(g, "places:%s:%s" % (sink, source), "catalogue")
+        c["type"] = typ
+        cases.append(c)
+
+    def scalar_source(g, kind, T):
+        """-> (place factory, [mutation thunks], context for the map-callback sink)"""
+        V, NEW, opv = SV[T], NEWV[T], ("x" if T == "str" else 2)
+        if kind in ("index_lit", "index_var"):
+            a = g.new_list(T, V)
+            via = kind == "index_var"
+            muts = [lambda: g.l_assign(a, 1, NEW)]
+            if T != "opt":
+                muts.append(lambda: g.l_opassign(a, 1, "+", opv, via))
+            muts += [lambda: g.l_push(a, NEW), lambda: g.l_reverse(a), lambda: g.l_remove(a, 0), lambda: g.l_clear(a)]
+            return (lambda: g.p_index(a, 1, via)), muts, ("index", a, None)
+        if kind == "map_lookup":
+            m = g.new_map("str", T, [("k", V[1]), ("j", V[0])])
+            muts = [lambda: g.m_assign(m, "k", NEW)]
+            if T != "opt":
+                muts.append(lambda: g.m_opassign(m, "k", "+", opv))
+            muts += [lambda: g.m_replace(m, "k", ALTV[T]), lambda: g.m_remove(m, "k"), lambda: g.m_clear(m)]
+            return (lambda: g.p_lookup(m, "k")), muts, ("lookup", m, "k")
+        if kind == "field":
+            f = {"int": "n", "str": "s", "opt": "o"}[T]
+            b = g.new_obj(V[1] if T == "int" else 4, V[1] if T == "str" else "s0", V[1] if T == "opt" else None, [1, 2])
+            muts = [lambda: g.o_set(b, f, NEW)]
+            if T != "opt":
+                muts.append(lambda: g.o_opassign(b, f, "+", opv))
+            muts.append(lambda: g.o_set(b, f, ALTV[T]))
+            return (lambda: g.p_field(b, f)), muts, ("field", b, f)
+        if kind == "nested_element":
+            n = g.new_list("nest", [[4, 5], [6]])
+            muts = [lambda: g.n_assign2(n, 0, 1, 55), lambda: g.n_opassign2(n, 0, 1, "*", 2),
+                    lambda: g.l_clear(g.n_fetch(n, 0)), lambda: g.l_assign(n, 0, [0])]
+            return (lambda: g.p_index2(n, 0, 1)), muts, None
+        if kind == "map_of_lists_element":
+            ml = g.new_map("str", "nest", [("p", [8, 9])])
+            muts = [lambda: g.m_assign2(ml, "p", 1, 55), lambda: g.m_opassign2(ml, "p", 1, "+", 1),
+                    lambda: g.m_assign(ml, "p", [0]), lambda: g.m_clear(ml)]
+            return (lambda: g.p_lookup2(ml, "p", 1)), muts, None
+        raise ValueError(kind)
+
+    def list_source(g, kind):
+        """inner lists reached through a place: shared with the sink"""
+        if kind == "nested_list_element":
+            n = g.new_list("nest", [[4, 5], [6]])
+            muts = [lambda: g.n_assign2(n, 0, 1, 55), lambda: g.l_push(g.n_fetch(n, 0), 8),
+                    lambda: g.l_assign(n, 0, [7]), lambda: g.n_assign2(n, 0, 0, 70), lambda: g.l_clear(n)]
+            return (lambda: g.p_index(n, 0)), muts, ("inner", n, None)
+        if kind == "field_list":
+            b = g.new_obj(1, "s", None, [4, 5])
+            muts = [lambda: g.l_push(g.o_fetch(b), 8), lambda: g.o_set(b, "items", [7]),
+                    lambda: g.l_push(g.o_fetch(b), 9)]
+            return (lambda: g.p_field(b, "items")), muts, ("field", b, "items")
+        ml = g.new_map("str", "nest", [("p", [4, 5])])
+        muts = [lambda: g.m_assign2(ml, "p", 1, 55), lambda: g.l_push(g.m_fetch(ml, "p"), 8),
+                lambda: g.m_assign(ml, "p", [7]), lambda: g.m_remove(ml, "p")]
+        return (lambda: g.p_lookup(ml, "p")), muts, ("lookup", ml, "p")
+
+    def sinks(T):
+        V0 = SV[T][0] if T != "nest" else [0]
+        out = {
+            "list_literal": lambda g, P, ctx: g.new_list(T, [V0, P(), P()]),
+            "map_literal_value": lambda g, P, ctx: g.new_map("str", T, [("x", P()), ("y", V0), ("z", P())]),
+            "push_argument": lambda g, P, ctx: (lambda x: (g.l_push(x, None, P()), x)[1])(g.new_list(T, [V0])),
+            "index_assignment": lambda g, P, ctx: (lambda x: (g.l_assign(x, 1, None, False, P()), x)[1])(
+                g.new_list(T, [V0, V0])),
+            "map_assignment": lambda g, P, ctx: (lambda m: (g.m_assign(m, "x", None, P()), m)[1])(
+                g.new_map("str", T, [("y", V0)])),
+            "replace_argument": lambda g, P, ctx: (lambda m: (g.m_replace(m, "x", None, P()), g.m_replace(m, "y", None, P()),
+                                                              m)[2])(g.new_map("str", T, [("y", V0)])),
+            "join_argument": lambda g, P, ctx: (lambda x: (g.l_join(x, [P(), P()]), x)[1])(g.new_list(T, [V0])),
+        }
+        if T in ("int", "str"):
+            out["map_literal_key"] = lambda g, P, ctx: g.new_map(T, "int", [(P(), 1), (NEWV[T], 2)])
+            out["map_assignment_key"] = lambda g, P, ctx: (lambda m: (g.m_assign(m, P(), 5), m)[1])(g.new_map(T, "int", []))
+            out["replace_key"] = lambda g, P, ctx: (lambda m: (g.m_replace(m, P(), 5), m)[1])(g.new_map(T, "int", []))
+            out["opassign_operand"] = lambda g, P, ctx: (lambda x: (g.l_opassign(x, 0, "+", P()), x)[1])(g.new_list(T, [V0]))
+            out["map_opassign_operand"] = lambda g, P, ctx: (lambda m: (g.m_opassign(m, "y", "+", P()), m)[1])(
+                g.new_map("str", T, [("y", V0)]))
+
+        def cb_sink(g, P, ctx):
+            kind, target, arg = ctx
+            ix = g.new_list("int", [1, 0, 1] if kind == "index" else [0, 1, 0])
+            return g.l_map_place(ix, kind, target, arg)
+        out["map_callback_result"] = cb_sink
+        return out
+
+    def run_case(g, sink_fn, P, muts, ctx):
+        sink = sink_fn(g, P, ctx)
+        g.alias(sink)
+        if sink.is_list:
+            g.l_clone(sink)
+        else:
+            g.m_clone(sink)
+        for mu in muts:
+            if g.failed is not None:
+                break
+            mu()
+
+    # pinned: the key of a map assignment is a lookup in the SAME map (directly / through an alias)
+    def b_samekey(g, through_alias):
+        m = g.new_map("int", "int", [(1, 5)])
+        other = g.alias(m) if through_alias else m
+        g.m_assign(m, g.p_lookup(other, 1), 7)
+        g.m_assign(m, g.p_lookup(m, 5), None, g.p_lookup(other, 1))
+    add("map_assignment_key", "lookup_in_same_map", "int,direct", lambda g: b_samekey(g, False))
+    add("map_assignment_key", "lookup_in_same_map", "int,through_alias", lambda g: b_samekey(g, True))
+
+    for T in ("int", "str", "opt"):
+        kinds = ["index_lit", "index_var", "map_lookup", "field"] + (["nested_element", "map_of_lists_element"] if T == "int" else [])
+        for kind in kinds:
+            for sname, sink_fn in sorted(sinks(T).items()):
+                def build(g):
+                    P, muts, ctx = scalar_source(g, kind, T)
+                    if sname == "map_callback_result" and ctx is None:
+                        return False
+                    run_case(g, sink_fn, P, muts, ctx)
+                    return True
+                probe = Gen()
+                if build(probe) is False:
+                    continue
+                add(sname, kind, T, build)
+    for kind in ("nested_list_element", "field_list", "map_lookup_list"):
+        for sname, sink_fn in sorted(sinks("nest").items()):
+            def build(g):
+                P, muts, ctx = list_source(g, kind)
+                run_case(g, sink_fn, P, muts, ctx)
+            add(sname, kind, "[int...] (shared)", build)
+    return cases
+
+
 # ----------------------------------------------------------------------------- callback sub-catalogue
 
 def callback_catalogue():
@@ -1416,6 +1790,12 @@ AVOIDANCE = {
                                  "random histories do not push the int? result of index_of into an [int?...] list "
                                  "(only while the signature is listed in known_findings.json)"),
 }
+SAME_MAP_KEY_SIG = "C13:places:map_assignment_key:lookup_in_same_map:unexpected_failure"
+ADAPTIVE = {
+    "map_key_lookup_in_same_map": "random histories do not write `m[m[k]] = v` (key = lookup in the same map object, also "
+                                  "through an alias); active while the pinned case %s deviates on the tree under test or "
+                                  "is listed in known_findings.json" % SAME_MAP_KEY_SIG,
+}
 ALWAYS_AVOIDED = {
     "self_join": "a list is never joined with itself or one of its aliases (pinned as C13:join:self, directly and through an alias): the statement leaves the state of a consumed argument open, so the model has "
                  "no prediction for a receiver that is also the argument",
@@ -1477,7 +1857,12 @@ def nontrivial(res):
 def run(ctx):
     out = core.Outcome()
     avoid = {name: any(s in ctx.known for s in sigs) for name, (sigs, _) in AVOIDANCE.items()}
-    cat = catalogue() + callback_catalogue()
+    cat = catalogue() + places_catalogue() + callback_catalogue()
+    # adaptive rule: the pinned case of a defect is run first; while it deviates on this tree (it is then reported
+    # under its own catalogue signature) the random generator stays away from that construct
+    probe = [c for c in cat if c["id"] == "places:map_assignment_key:lookup_in_same_map"][0]
+    pres = execute(probe)
+    avoid["map_key_lookup_in_same_map"] = bool("deviation" in pres or SAME_MAP_KEY_SIG in ctx.known)
     items = [(c["kind"], c, avoid) for c in cat]
     n_hist = ctx.n(8000, 50000)
     base = ctx.seed * 10000019
@@ -1543,6 +1928,7 @@ def run(ctx):
     agg["rejected_examples"] = rejected_examples
     agg["avoidance_rules"] = dict(
         [(k, {"active": avoid[k], "rule": d, "switched_on_by": list(s)}) for k, (s, d) in AVOIDANCE.items()] +
+        [(k, {"active": bool(avoid.get(k)), "rule": d}) for k, d in ADAPTIVE.items()] +
         [(k, {"active": True, "rule": d}) for k, d in ALWAYS_AVOIDED.items()])
     if C.MUTATION:
         agg["MODEL_DELIBERATELY_BROKEN"] = C.MUTATION
